@@ -27,6 +27,26 @@ def temper(x):
     x ^= x >> 11; x ^= (x << 7) & 0x9d2c5680; x ^= (x << 15) & 0xefc60000; x ^= x >> 18
     return x & 0xffffffff
 
+M64 = (1 << 64) - 1
+def temper64(x):
+    x ^= (x >> 29) & 0x5555555555555555
+    x ^= (x << 17) & 0x71D67FFFEDA60000 & M64
+    x ^= (x << 37) & 0xFFF7EEE000000000 & M64
+    x ^= x >> 43
+    return x & M64
+
+def untemper64(y):
+    """inverse of the MT19937-64 output tempering"""
+    y &= M64
+    y ^= y >> 43
+    y ^= (y << 37) & 0xFFF7EEE000000000 & M64
+    t = y
+    for _ in range(4): t = y ^ ((t << 17) & 0x71D67FFFEDA60000 & M64)
+    y = t
+    t = y
+    for _ in range(3): t = y ^ ((t >> 29) & 0x5555555555555555)
+    return t & M64
+
 UP = b"ABCDEFGHIJKLMNOPQRSTUVWXYZ"
 GAPS_TEXT = b"-_."
 
@@ -50,7 +70,13 @@ class C18(Prop):
         "shuffleDP_checks_never_fire", "shuffleDP_spec", "cShuffleDP_status", "xShuffleDP_status",
         "vShuffle_spec", "vShuffle_inplace_eq", "qrna_keeps_classes", "qrna_class_perm",
         "roll_returns_first_accepted", "dpFind_returns_first_accepted", "vecShuffle64_perm", "rsqSample_spec",
-        "sampleDirty_never_gap", "sampleDirty_sampled_vector_zeros")]
+        "sampleDirty_never_gap", "sampleDirty_sampled_vector_zeros",
+        "cShuffle_via_rolls", "cShuffle_bijective_on_rolls", "cShuffle_natural", "xShuffle_via_rolls", "xShuffle_bijective_on_rolls",
+        "xShuffle_natural", "msaShuffle_via_rolls", "roll_rejects_less_than_half", "roll64_rejects_at_most_half",
+        "roll_fuel_exhausted_only_by_rejected_run", "dpSelectLast_via_rolls", "exists_accepting_rolls", "dpRetry_every_pass_can_accept",
+        "shuffleWindow_via_rolls", "xShuffleWindows_window_bijective_on_rolls", "cShuffleWindows_pair_always_swapped",
+        "shuffleKmers_via_rolls", "cShuffle_counts",
+        "fisherYates_via_rolls", "fisherYates_bijective_on_rolls", "vecShuffle64_via_rolls", "rsqSample_uniform", "iidUniform_exact", "bootstrap_exact")]
     claimed = True
     technique = ("Lean 4 proof (Fisher-Yates/swap-loop invariants, permutation and support theorems for every generator state) + "
                  "exact differential correspondence of the executable model (on the C09 generator model) with the ASan/UBSan-built C code + python property monitors on the C output")
@@ -61,21 +87,53 @@ class C18(Prop):
                   "IID only symbols with p != 0 (over any lawful number type; rationals are an instance); column shuffle and sequence-order permutation output a permutation of the column (record) list "
                   "with entries kept together; bootstrap outputs only input columns; VShuffle keeps every column's multiset and gap positions; QRNA keeps column classes, gap positions and the per-class "
                   "column multiset. The hand model is tied to the working tree by an exact differential run (same seed => same bytes, same generator consumption, in place = separate) and every clause "
-                  "is also monitored directly on the C output.")
+                  "is also monitored directly on the C output. Uniformity (round 3): every Fisher-Yates loop of the library (CShuffle, XShuffle, esl_vec_*Shuffle[64], column/sequence-order "
+                  "shuffles, k-mer words, each window of XShuffleWindows, DP step 5) is proved to compute a function of an in-range roll vector that is a BIJECTION from the n! in-range roll vectors onto the n! "
+                  "arrangements (exactly one roll vector per arrangement; counting form cShuffle_counts), esl_rsq_Sample and xIID(NULL) are table[Roll(n)] over a duplicate-free table; "
+                  "esl_rsq_CShuffleWindows is proved NOT uniform (Roll(j-i): a window of two is swapped for every generator state). Termination: esl_rnd_Roll rejects fewer than 2^31 of the 2^32 words "
+                  "(exactly the top interval), so fuel k fails only on k consecutive rejected words; for the DP shuffle's retry loop an accepted in-range last-edge roll vector EXISTS for every input and "
+                  "every pass (the sequence's own last edges), proved through the completeness of the code's connectivity sweep.")
     level_note = ("Trusted: Lean kernel + propext/Classical.choice/Quot.sound; fidelity of the hand model is checked (not proved) by the differential run; esl_rnd_Roll's rejection loop and the DP "
-                  "shuffle's retry loop are modelled with fuel (they end with probability 1, not for every stream); Markov/IID support theorems are over exact arithmetic laws (x+0=x, 0/d=0, "
+                  "shuffle's retry loop are modelled with fuel: termination for every stream is false; proved instead: per-draw rejection set < half of the words, and an accepting roll vector exists for every pass "
+                  "(positive success probability per pass; no probability theory is formalised); the bijection theorems are statements about roll vectors, equal likelihood of roll values is C09's roll_unbiased32; Markov/IID support theorems are over exact arithmetic laws (x+0=x, 0/d=0, "
                   "nonnegative ratio never < 0/norm) that binary64 is trusted to satisfy (L0); zero-length pairwise alignments raise Easel's zero-size-allocation exception (modelled, outside the quantifier).")
     diverge_is_violation = False
     quick_budget_s = 90
     trusted_base = ["hand model of esl_randomseq.c / esl_msashuffle.c / esl_vectorops.c shufflers tied by exact differential run (h_randomseq.c, ASan+UBSan build of the working tree)",
                     "C09 generator model (EaselModel.Random.Model) - bit-identical to esl_random.c, proved and tied by C09",
                     "Lean compiler/runtime for the executable driver; gcc; binary64 arithmetic of DChoose (L0)"]
-    assumptions = ["esl_rnd_Roll's rejection loop is modelled with fuel 10^6 (first accepted draw); the DP shuffle's `while (!is_eulerian)` retry loop with fuel 10^5",
+    assumptions = ["esl_rnd_Roll's rejection loop is modelled with fuel 10^6 (first accepted draw); the DP shuffle's `while (!is_eulerian)` retry loop with fuel 10^5 (roll_rejects_less_than_half / exists_accepting_rolls bound what fuel exhaustion means)",
+                   "the roll range `j-i+d` of esl_rsq_{C,X}ShuffleWindows is read from the working tree on every run (WinParams.lean); d = 0 (text version of the pinned tree) is a proved non-uniform shuffle - an observation OUTSIDE the property (C18 promises the residue counts per window, which hold for d in {0,1}); it is not a violation and not a known finding",
                    "the C three-statement swap is Array.swapIfInBounds; all indices are proved in range (RegionPerm/WinPerm/RowsInv hypotheses), ASan checks the C side",
                    "allocation never fails, except ESL_ALLOC of size 0 (esl_msashuffle_{C,X}QRNA on zero-length sequences returns eslEMEM - modelled, outside 'alignments as in C03')",
                    "DChoose/FChoose arithmetic is binary64 (Lean Float, same libm-free operations); theorems about Markov/IID support are over an abstract lawful number type (L0 not proved)",
                    "esl_rsq_SampleDirty's sampled-vector mode is modelled in binary64 only (esl_rnd_Dirichlet(NULL) = normalised -log(UniformPositive), libm log; bit-identical in the differential run); general esl_rnd_Gamma/Dirichlet with alpha != NULL are not modelled"]
     rule = ("cases = seed + 1..8 shuffler calls (+ a final generator peek); non-trivial = at least one ok output of length >= 3 that differs from its input; distinct by output trace")
+
+    # ------------------------------------------------------------------ regenerated model parameters
+    WINPARAMS = '/-! GENERATED by props/c18.py from esl_randomseq.c of the working tree on every run — do not edit.\nThe argument of `esl_rnd_Roll` in the inner loop of the two window shufflers is `j-i+d`. -/\nnamespace EaselModel.Shuffle\n/-- `esl_rsq_CShuffleWindows`: `k = i + esl_rnd_Roll(r, %s)` -/\ndef cWinD : Nat := %d\n/-- `esl_rsq_XShuffleWindows`: `k = i + esl_rnd_Roll(r, %s)` -/\ndef xWinD : Nat := %d\ntheorem cWinD_le : cWinD ≤ 1 := by decide\ntheorem xWinD_le : xWinD ≤ 1 := by decide\nend EaselModel.Shuffle\n'
+
+    def win_params(self, ctx):
+        """the argument `j-i+d` of esl_rnd_Roll in the inner loop of esl_rsq_{C,X}ShuffleWindows, read from the working tree"""
+        import re, os
+        src = open(os.path.join(ctx.src, "esl_randomseq.c")).read()
+        out = {}
+        for fn in ("esl_rsq_CShuffleWindows", "esl_rsq_XShuffleWindows"):
+            m = re.search(r"\n" + fn + r"\(.*?\n}\n", src, re.S)
+            if not m: raise RuntimeError("%s not found in esl_randomseq.c" % fn)
+            calls = re.findall(r"esl_rnd_Roll\s*\(\s*r\s*,([^;]*?)\)\s*;", m.group(0))
+            if len(calls) != 1: raise RuntimeError("%s: expected exactly one esl_rnd_Roll call, found %d" % (fn, len(calls)))
+            e = re.sub(r"\s+", "", calls[0])
+            d = {"j-i": 0, "j-i+1": 1, "1+j-i": 1, "j+1-i": 1, "(j-i)": 0, "(j-i)+1": 1, "(j-i+1)": 1}.get(e)
+            if d is None: raise RuntimeError("%s: roll range %r is not of the form j-i+d with d in {0,1}" % (fn, e))
+            out[fn] = (e, d)
+        return out
+
+    def generated(self, ctx):
+        w = self.win_params(ctx)
+        c, x = w["esl_rsq_CShuffleWindows"], w["esl_rsq_XShuffleWindows"]
+        self._win = {"cWinD": c[1], "xWinD": x[1]}
+        return {"EaselModel/Shuffle/WinParams.lean": self.WINPARAMS % (c[0], c[1], x[0], x[1])}
 
     # ------------------------------------------------------------------ generators
     def rand_len(self, rng, big=False):
@@ -278,6 +336,10 @@ class C18(Prop):
                                                        "poke raw=%d" % untemper(0), "fiid abc=%s p=%s L=4" % (hx(b"ab"), ",".join(fbits(x) for x in (0.0, 1.0))), "peek"]},
             {"name": "roll-rejection-boundary", "ops": ["seed s=9"] + sum([["poke raw=%d" % untemper(v), "cshuffle s=%s ip=0" % hx(b"ABCDEFG")] for v in
                                                         (7 * (0xffffffff // 7), 7 * (0xffffffff // 7) - 1, 0xffffffff, 0)], []) + ["peek"]},
+            {"name": "cwindows-w2-w3-several-seeds", "ops": sum([["seed s=%d" % sd, "cwindows s=%s w=2 ip=0" % hx(b"ABCDEFGHIJ"), "cwindows s=%s w=3 ip=1" % hx(b"ABCDEFGHIJ"),
+                                                                "xwindows s=%s w=2 ip=0" % hx(range(10)), "xwindows s=%s w=3 ip=1" % hx(range(10))] for sd in (1, 2, 3, 7, 99)], []) + ["peek"]},
+            {"name": "roll64-rejection-boundary", "ops": ["seed64 s=11"] + sum([["poke64 raw=%d" % untemper64(v), "ishuffle64 v=1,2,3,4,5,6,7"] for v in
+                                                          (7 * (M64 // 7), 7 * (M64 // 7) - 1, M64, 0, 6 * (M64 // 7) - 1, 6 * (M64 // 7))], []) + ["lshuffle64 v=-", "dshuffle64 v=5", "fshuffle64 v=1,2", "peek64"]},
             {"name": "same-seed-inplace", "ops": ["seed s=99", "cshuffle s=%s ip=0" % hx(b"ACGTACGTAC"), "seed s=99", "cshuffle s=%s ip=1" % hx(b"ACGTACGTAC"), "peek"]},
         ]
         return [dict(x, sticky=1) for x in c]
@@ -319,6 +381,12 @@ class C18(Prop):
                     ops.append("seed64 s=%d" % rng.choice([1, 2, 42, 2**63, 2**64 - 1, rng.randrange(1, 1 << 64)]))
                     for _ in range(rng.randrange(1, 4)):
                         v = [rng.randrange(-50, 50) for _ in range(rng.choice([0, 1, 2, 3, rng.randrange(0, 60)]))]
+                        if len(v) >= 2 and rng.random() < 0.4:        # the first draw esl_rand64_Roll(n) on / next to the rejection boundary
+                            n = len(v); f = M64 // n
+                            pv = rng.choice([0, 1, M64, M64 - 1, 1 << 63, n * f, n * f - 1, n * f + 1, (n - 1) * f, (n - 1) * f - 1, f, f - 1])
+                            pv = min(max(pv, 0), M64)
+                            assert temper64(untemper64(pv)) == pv
+                            ops.append("poke64 raw=%d" % untemper64(pv))
                         ops.append("%sshuffle64 v=%s" % (rng.choice("dfil"), ",".join(map(str, v)) if v else "-"))
                     ops.append("peek64")
             ops.append("peek")
@@ -432,7 +500,7 @@ class C18(Prop):
     def check_one(self, w, a, l):
         if w == "peek": return None if l.startswith("ok ") else "peek failed"
         if w == "poke": return None if l == "ok" else "poke failed"
-        if w in ("seed64", "peek64"): return None if l.startswith("ok") else "%s failed" % w
+        if w in ("seed64", "peek64", "poke64"): return None if l.startswith("ok") else "%s failed" % w
         if w.endswith("shuffle64"):
             v = [] if a["v"] == "-" else [int(x) for x in a["v"].split(",")]
             if not l.startswith("ok "): return "returned %s" % l
@@ -618,6 +686,7 @@ class C18(Prop):
                     L = len(unhx(a["s"])); lens["0" if L == 0 else "1-2" if L <= 2 else "3-39" if L < 40 else "40-299" if L < 300 else "300-5000"] += 1
             n += 1
         return {"input_distribution": {"sampled_cases": n, "ops": dict(ops), "sequence_lengths": dict(lens)},
+                "window_roll_range_read_from_tree": getattr(self, "_win", None),
                 "mutations_caught": "see final report: 14 hand mutations of esl_randomseq.c/esl_msashuffle.c/esl_random.c, all non-equivalent ones reported"}
 
 SPEC = C18()
